@@ -47,7 +47,10 @@ def run():
             h += [A(a='AllocDataset', d='d1', m='dm1'), A(a='InitDatasetChunk', d='d1', c='c1', j=1), A(a='InitDatasetChunk', d='d1', c='c1', j=2),
                   A(a='CreateVm', v='v1', kind=kind, c='none', d='d1', v2=v2)]
         else:
-            h += [A(a='CreateVm', v='v1', kind=kind, c='c1', d='none', v2=v2)]
+            # the VM is constructed under a non-default word of the caller (exceptions unmasked, other rounding mode): later hashes entered
+            # with any word must not be affected by what the thread looked like at construction time
+            h += [A(a='SetCsr', csr=[0x0000, 0x7F80, 0x1F00, 0x9FC0 & ~0x1000][i % 4]), A(a='CreateVm', v='v1', kind=kind, c='c1', d='none', v2=v2), A(a='SetCsr', csr=0x1F80),
+                  A(a='Hash', v='v1', key='K1', **{'in': 'I1'})]
         for j, w in enumerate(mine):
             inp = 'I1' if j % 2 == 0 else 'I2'
             if j % 4 == 3 and not full:
